@@ -65,6 +65,8 @@ def _key(c, mode, v):
         path += "-skipmeta"
     if mode.startswith("sess-prep"):
         path += "-queryinfo"
+    if mode.startswith("sess-iter"):
+        path += "-iter"
     kind = l["kind"].lower()
     if l["kind"] == "ERROR":
         kind += "-0x%04x" % l["b"]["code"]
@@ -128,6 +130,12 @@ def _modes(s, cid, quick):
         modes.append("sess-full")
         if z:
             modes.append("sess-full-z")
+    if s["kind"] in ("RESULT_VOID", "RESULT_KEYSPACE", "RESULT_SCHEMA"):
+        # as the application gets it: Query.Iter() of a statement that returns no rows - the
+        # iterator still carries the frame's warnings / custom payload / trace id
+        modes.append("sess-iter")
+        if z:
+            modes.append("sess-iter-z")
     if s["kind"] == "RESULT_PREPARED":
         # as the application gets it: the QueryInfo handed to a binding function
         modes.append("sess-prep")
